@@ -50,6 +50,12 @@ def class_key(case, complaint=""):
             dof, target = float(m.group(2)), float(m.group(4))
             if 81484.40 <= dof <= 81484.55 and min(abs(target - 0.21), abs(target - 0.79)) < 1e-3:
                 return "C06|t-quantile||statrs-pocket(dof~81484.46,p=0.21|0.79)"
+    if pid == "C04" and op == "unpaired" and ty == "f" and complaint.startswith("dof-nan"):
+        # D18 (known finding): the fourth powers of the spreads leave the f64 range, the effective dof is NaN and the
+        # normal quantile is used silently. Only for f64 data whose magnitude is beyond 1e75 or below 1e-75.
+        vals = [abs(v) for v in (_num(t) for t in toks[5:] if t.startswith("x")) if v is not None and v == v and v != 0.0]
+        if vals and (max(vals) >= 1e75 or max(vals) <= 1e-75):
+            return "C04|unpaired|f|dof-nan(fourth-powers-of-spreads-outside-f64-range:magnitude>=1e75-or<=1e-75)"
     if pid == "C18" and op == "literal":
         feats = ["level-outside-(0,1)"]
         ty = ""
